@@ -196,6 +196,28 @@ def gen_C09(v, n):
             if v.aliases and rng.random() < 0.2 and i != len(segs) - 1:
                 segs[-1] = rng.choice(list(v.aliases.keys()))
             out.append(_op("C09", {"l": L, "s": "/".join(segs), "index": i, "repeat": rng.choice([1, 2, 3])}))
+        # SEVERAL groups without any '*' before the '>': an or-list at a closed level right before it, and a '*' on the
+        # type level only (each typed search then has a literal type code there); entries in every group
+        from gen import re_is_free as _free
+        for label, fields in leaves[:2]:
+            ks = v.tdict[label]
+            closed_at = [j for j in range(2, len(fields) - 1) if not _free(ks[j][1])]
+            for j in closed_at[:2]:
+                alt = [w for w in (v.closed.get(ks[j][0]) or []) if w != fields[j][1]]
+                if not alt:
+                    continue
+                f2 = list(fields)
+                f2[j] = (ks[j][0], alt[0])
+                segs1, segs2 = [val for _, val in fields], [val for _, val in f2]
+                L2 = list(L) + ["/".join(segs2[:m]) for m in range(1, len(segs2) + 1)] + ["/".join(segs1[:m]) for m in range(1, len(segs1) + 1)]
+                L2 = list(dict.fromkeys(L2))
+                i = j + 1
+                s_or = "/".join(segs1[:j] + [segs1[j] + "," + segs2[j], ">"] + ["*"] * (len(segs1) - i - 1))
+                out.append(_op("C09", {"l": L2, "s": s_or, "index": i}))
+            other = [f for l2, f in leaves if f[1][1] != fields[1][1] and f[0][1] == fields[0][1] and len(f) > 3]
+            if other and len(fields) > 3:      # a '*' on the type level only, '>' right after it: one group per basetype
+                out.append(_op("C09", {"l": L, "s": "/".join([fields[0][1], "*", ">", "*"]), "index": 2}))
+                out.append(_op("C09", {"l": L, "s": "/".join([fields[0][1], "*", ">", ">"]), "index": 2}))
     out.append(_op("C09", {"l": ["hamlet/a/char/a/model/v001/w/ma", "hamlet/a/char/a-b/model/v001/w/ma"],
                            "s": "hamlet/a/char/>/model/*/w/*", "index": 3}))
     # the same universe as a file tree: '>' as the ONLY search symbol (the string may fit several types
